@@ -25,6 +25,7 @@ import (
 
 	"github.com/thanos-io/thanos/pkg/block"
 	"github.com/thanos-io/thanos/pkg/block/metadata"
+	"github.com/thanos-io/thanos/pkg/compact/downsample"
 	"github.com/thanos-io/thanos/pkg/store"
 	storecache "github.com/thanos-io/thanos/pkg/store/cache"
 	"github.com/thanos-io/thanos/pkg/store/storepb"
@@ -114,11 +115,17 @@ type c10Series struct {
 type c10Block struct {
 	Ext    map[string]string `json:"ext"`
 	Series []c10Series       `json:"series"`
+	// DsOf > 0: this block is the 5m downsampling (downsample.Downsample) of block DsOf-1; Series is ignored.
+	DsOf int `json:"ds_of"`
 }
 type c10Query struct {
 	Ms   []c10Matcher `json:"ms"`
 	Mint int64        `json:"mint"`
 	Maxt int64        `json:"maxt"`
+	// MaxRes = max_resolution_window (ms); Aggrs = requested aggregates 1..5 (count, sum, min, max,
+	// counter); none = RAW only.
+	MaxRes int64 `json:"maxres"`
+	Aggrs  []int `json:"aggrs"`
 }
 type c10Case struct {
 	Blocks []c10Block `json:"blocks"`
@@ -139,10 +146,50 @@ type c10Epoch struct {
 	Nq      int   `json:"nq"`
 }
 
-// frame of an answer: labels and chunks [mint, maxt, crc of samples]
+// frame of an answer: labels and chunks [mint, maxt, [content hashes]]: one CRC of the samples for a
+// raw chunk; for an aggregate chunk of a downsampled block five (count, sum, min, max, counter),
+// -1 where the aggregate was not requested / not returned.
+type c10Chunk struct {
+	Mint, Maxt int64
+	H          []int64
+}
+
+func (c c10Chunk) MarshalJSON() ([]byte, error) { return json.Marshal([]any{c.Mint, c.Maxt, c.H}) }
+
 type c10Frame struct {
 	Ls     map[string]string `json:"ls"`
-	Chunks [][3]int64        `json:"chunks"`
+	Chunks []c10Chunk        `json:"chunks"`
+}
+
+var c10AggrTypes = []downsample.AggrType{downsample.AggrCount, downsample.AggrSum, downsample.AggrMin, downsample.AggrMax, downsample.AggrCounter}
+
+// c10Project keeps the hashes of the requested aggregates (1..5) of an aggregate chunk.
+func c10Project(c c10Chunk, aggrs []int) c10Chunk {
+	if len(c.H) != 5 {
+		return c
+	}
+	out := c10Chunk{c.Mint, c.Maxt, []int64{-1, -1, -1, -1, -1}}
+	for _, a := range aggrs {
+		out.H[a-1] = c.H[a-1]
+	}
+	return out
+}
+
+// c10Hashes: one CRC for a raw chunk, five (count, sum, min, max, counter; -1 = absent) for an aggregate chunk.
+func c10Hashes(c chunkenc.Chunk) []int64 {
+	if c.Encoding() != downsample.ChunkEncAggr {
+		return []int64{c10Hash(c)}
+	}
+	out := make([]int64, 5)
+	for i, at := range c10AggrTypes {
+		x, err := downsample.AggrChunk(c.Bytes()).Get(at)
+		if err != nil {
+			out[i] = -1
+			continue
+		}
+		out[i] = c10Hash(x)
+	}
+	return out
 }
 
 func c10Hash(c chunkenc.Chunk) int64 {
@@ -463,6 +510,56 @@ func TestC10(t *testing.T) {
 			cfgs := []string{"lazy=aggr,batch=1,samp=1,cache=big", "lazy=off,batch=10000,samp=3,cache=big", "lazy=aggr,batch=2,samp=3,cache=tiny", "lazy=on,batch=3,samp=32,cache=none"}
 			yield(c10ToCase(c10Case{Blocks: blocks, Cr: cr, Qs: qs, Cfgs: cfgs, Epochs: eps}))
 		}
+		// --- downsampled blocks: aggregate chunks, max_resolution_window, requested aggregates ---
+		// R = a raw block of 3 h (samples every 30 s, series covering all / early / late / middle parts),
+		// D = its 5m downsampling by downsample.Downsample. The bucket holds R, then R and D, then D
+		// only (or other orders); requests carry max_resolution_window 0 / 5m / 1h and aggregate lists.
+		for wi := 0; wi < vt.Pick(3, 16); wi++ {
+			const step, hour = 30000, 3600000
+			var series []c10Series
+			spans := [][2]int64{{0, 3 * hour}, {0, hour}, {2 * hour, 3 * hour}, {hour / 2, 5 * hour / 2}, {0, 3 * hour}}
+			for si := 0; si < 4+rnd.Intn(3); si++ {
+				l := map[string]string{"job": "j", "id": fmt.Sprintf("s%02d", si), "n0": []string{"a", "b"}[si%2], "n1": []string{"a", "b"}[(si/2)%2]}
+				sp := spans[(si+wi)%len(spans)]
+				var smp [][2]int64
+				v := int64(rnd.Intn(100))
+				for ts := sp[0]; ts < sp[1]; ts += step {
+					if rnd.Intn(40) == 0 {
+						v = int64(rnd.Intn(5)) // counter reset
+					}
+					v += int64(rnd.Intn(7))
+					if rnd.Intn(25) == 0 {
+						continue // a scrape is missing
+					}
+					smp = append(smp, [2]int64{ts + int64(rnd.Intn(1000)), v})
+				}
+				series = append(series, c10Series{Ls: l, Samples: smp})
+			}
+			e1 := map[string]string{"ext": "e1"}
+			blocks := []c10Block{{Ext: e1, Series: series}, {Ext: e1, Series: []c10Series{}, DsOf: 1}}
+			plan := [][][]int{{{0}, {0, 1}, {1}}, {{0, 1}, {1}}, {{1}, {0, 1}}, {{0, 1}}}[wi%4]
+			sels := [][]c10Matcher{
+				{{"n0", "EQ", "lit", []string{"a"}}},
+				{{"n0", "EQ", "lit", []string{"b"}}, {"n1", "RE", "set", []string{"a", "b"}}},
+				{{"id", "RE", "nonempty", nil}},
+				{{"n1", "NEQ", "lit", []string{"a"}}},
+			}
+			rngs := [][2]int64{{0, 3 * hour}, {0, hour - 1}, {hour, 2 * hour}, {5 * hour / 2, 4 * hour}, {hour + 77, hour + 77}, {-10, 100}, {2*hour - 1, 2 * hour}}
+			aggrSets := [][]int{{1, 2}, {3}, {4, 5}, {1, 2, 3, 4, 5}, {}, {5}}
+			var qs []c10Query
+			var eps []c10Epoch
+			for _, present := range plan {
+				n := 4 + rnd.Intn(3)
+				for k := 0; k < n; k++ {
+					r := rngs[rnd.Intn(len(rngs))]
+					qs = append(qs, c10Query{Ms: sels[rnd.Intn(len(sels))], Mint: r[0], Maxt: r[1],
+						MaxRes: []int64{0, 300000, 300000, 3600000}[rnd.Intn(4)], Aggrs: aggrSets[rnd.Intn(len(aggrSets))]})
+				}
+				eps = append(eps, c10Epoch{Present: present, Nq: n})
+			}
+			cfgs := []string{"lazy=off,batch=10000,samp=1,cache=big", "lazy=aggr,batch=1,samp=3,cache=big", "lazy=aggr,batch=2,samp=32,cache=tiny"}
+			yield(c10ToCase(c10Case{Blocks: blocks, Cr: 2 * hour, Qs: qs, Cfgs: cfgs, Epochs: eps}))
+		}
 		// --- bigger seeded worlds ---
 		for wi := 0; wi < vt.Pick(6, 30); wi++ {
 			card := 20 + rnd.Intn(21)
@@ -550,6 +647,9 @@ func c10Uniq(in []string) []string {
 func c10ToCase(c c10Case) vt.Case {
 	// no JSON null may reach the trace (TLC cannot read it): empty lists instead of nil
 	for qi := range c.Qs {
+		if c.Qs[qi].Aggrs == nil {
+			c.Qs[qi].Aggrs = []int{}
+		}
 		for mi := range c.Qs[qi].Ms {
 			if c.Qs[qi].Ms[mi].Alts == nil {
 				c.Qs[qi].Ms[mi].Alts = []string{}
@@ -663,7 +763,12 @@ func runC10(t *testing.T, c vt.Case) vt.Event {
 	bkt := objstore.NewInMemBucket()   // the bucket the stores read
 	stage := objstore.NewInMemBucket() // every block of the case; blocks are copied into / deleted from bkt per epoch
 	var wblocks []world.Block
+	hasDs := false
 	for _, bl := range cs.Blocks {
+		if bl.DsOf > 0 {
+			hasDs = true
+			continue
+		}
 		wb := world.Block{Ext: bl.Ext, ChunkRange: cs.Cr}
 		for _, s := range bl.Series {
 			ws := world.Series{Labels: s.Ls}
@@ -677,6 +782,52 @@ func runC10(t *testing.T, c vt.Case) vt.Event {
 	built, err := world.UploadBlocks(ctx, stage, filepath.Join(dir, "mk"), wblocks)
 	if err != nil {
 		t.Fatalf("c10: building the world failed: %v", err)
+	}
+	if hasDs {
+		// downsampled blocks: downsample.Downsample of the raw block, uploaded next to it
+		full := make([]world.BuiltBlock, len(cs.Blocks))
+		j := 0
+		for i, bl := range cs.Blocks {
+			if bl.DsOf == 0 {
+				if j >= len(built) {
+					t.Fatalf("c10: a case with downsampled blocks must not contain empty blocks")
+				}
+				full[i] = built[j]
+				j++
+			}
+		}
+		for i, bl := range cs.Blocks {
+			if bl.DsOf == 0 {
+				continue
+			}
+			src := full[bl.DsOf-1]
+			sdir := filepath.Join(dir, "ds-src", src.Meta.ULID.String())
+			if err := block.Download(ctx, log.NewNopLogger(), stage, src.Meta.ULID, sdir); err != nil {
+				t.Fatalf("c10: download: %v", err)
+			}
+			rb, err := tsdb.OpenBlock(c10Discard(), sdir, nil, nil)
+			if err != nil {
+				t.Fatalf("c10: open raw block: %v", err)
+			}
+			odir := filepath.Join(dir, "ds-out")
+			if err := os.MkdirAll(odir, 0o750); err != nil {
+				t.Fatal(err)
+			}
+			id, err := downsample.Downsample(ctx, log.NewNopLogger(), src.Meta, rb, odir, downsample.ResLevel1)
+			rb.Close()
+			if err != nil {
+				t.Fatalf("c10: downsample: %v", err)
+			}
+			if err := block.Upload(ctx, log.NewNopLogger(), stage, filepath.Join(odir, id.String()), metadata.NoneFunc); err != nil {
+				t.Fatalf("c10: upload downsampled block: %v", err)
+			}
+			m, err := metadata.ReadFromDir(filepath.Join(odir, id.String()))
+			if err != nil {
+				t.Fatalf("c10: meta of downsampled block: %v", err)
+			}
+			full[i] = world.BuiltBlock{Meta: m}
+		}
+		built = full
 	}
 	epochs := cs.Epochs
 	if len(epochs) == 0 {
@@ -735,7 +886,7 @@ func runC10(t *testing.T, c vt.Case) vt.Event {
 		if err := block.Download(ctx, log.NewNopLogger(), stage, bb.Meta.ULID, bdir); err != nil {
 			t.Fatalf("c10: download: %v", err)
 		}
-		ob, err := tsdb.OpenBlock(c10Discard(), bdir, nil, nil)
+		ob, err := tsdb.OpenBlock(c10Discard(), bdir, downsample.NewPool(), nil)
 		if err != nil {
 			t.Fatalf("c10: open block: %v", err)
 		}
@@ -755,7 +906,7 @@ func runC10(t *testing.T, c vt.Case) vt.Event {
 		var out []c10Frame
 		for ss.Next() {
 			s := ss.At()
-			f := c10Frame{Ls: map[string]string{}, Chunks: [][3]int64{}}
+			f := c10Frame{Ls: map[string]string{}, Chunks: []c10Chunk{}}
 			s.Labels().Range(func(l labels.Label) { f.Ls[l.Name] = l.Value })
 			for k, v := range ob.meta.Thanos.Labels {
 				f.Ls[k] = v
@@ -763,7 +914,7 @@ func runC10(t *testing.T, c vt.Case) vt.Event {
 			it := s.Iterator(nil)
 			for it.Next() {
 				m := it.At()
-				f.Chunks = append(f.Chunks, [3]int64{m.MinTime, m.MaxTime, c10Hash(m.Chunk)})
+				f.Chunks = append(f.Chunks, c10Chunk{m.MinTime, m.MaxTime, c10Hashes(m.Chunk)})
 			}
 			if it.Err() != nil {
 				t.Fatalf("c10: oracle chunk iterator: %v", it.Err())
@@ -791,10 +942,12 @@ func runC10(t *testing.T, c vt.Case) vt.Event {
 			}
 			series = append(series, map[string]any{"id": i + 1, "ls": ls, "chunks": f.Chunks})
 		}
-		evBlocks = append(evBlocks, map[string]any{"ext": ob.meta.Thanos.Labels, "series": series})
+		evBlocks = append(evBlocks, map[string]any{"ext": ob.meta.Thanos.Labels, "series": series,
+			"res": ob.meta.Thanos.Downsample.Resolution, "mint": ob.meta.MinTime, "maxt": ob.meta.MaxTime})
 	}
-	oracle := func(q c10Query, present []int) []c10Frame {
-		var out []c10Frame
+	// per loaded block: what the TSDB reader gives for the query (chunks projected on the requested aggregates)
+	oracle := func(q c10Query, present []int) [][]c10Frame {
+		out := [][]c10Frame{}
 		for _, bi := range present {
 			ob := oblocks[bi]
 			ext := labels.FromMap(ob.meta.Thanos.Labels)
@@ -808,9 +961,16 @@ func runC10(t *testing.T, c vt.Case) vt.Event {
 				}
 				rest = append(rest, pm)
 			}
+			fr := []c10Frame{}
 			if ok {
-				out = append(out, readBlock(ob, rest, q.Mint, q.Maxt)...)
+				for _, f := range readBlock(ob, rest, q.Mint, q.Maxt) {
+					for k := range f.Chunks {
+						f.Chunks[k] = c10Project(f.Chunks[k], q.Aggrs)
+					}
+					fr = append(fr, f)
+				}
 			}
+			out = append(out, fr)
 		}
 		return out
 	}
@@ -860,8 +1020,11 @@ func runC10(t *testing.T, c vt.Case) vt.Event {
 	}
 
 	ask := func(s st, q c10Query) c10Answer {
-		req := &storepb.SeriesRequest{MinTime: q.Mint, MaxTime: q.Maxt, MaxResolutionWindow: 0,
+		req := &storepb.SeriesRequest{MinTime: q.Mint, MaxTime: q.Maxt, MaxResolutionWindow: q.MaxRes,
 			Aggregates: []storepb.Aggr{storepb.Aggr_RAW}}
+		for _, a := range q.Aggrs {
+			req.Aggregates = append(req.Aggregates, []storepb.Aggr{storepb.Aggr_COUNT, storepb.Aggr_SUM, storepb.Aggr_MIN, storepb.Aggr_MAX, storepb.Aggr_COUNTER}[a-1])
+		}
 		for _, m := range q.Ms {
 			req.Matchers = append(req.Matchers, m.pb())
 		}
@@ -948,13 +1111,14 @@ func runC10(t *testing.T, c vt.Case) vt.Event {
 		for _, b1 := range loadedAt[qi] {
 			present = append(present, b1-1)
 		}
-		or := oracle(q, present)
-		if or == nil {
-			or = []c10Frame{}
+		aggrs := q.Aggrs
+		if aggrs == nil {
+			aggrs = []int{}
 		}
-		evQs = append(evQs, map[string]any{"ms": ms, "mint": q.Mint, "maxt": q.Maxt, "oracle": or, "res": groups[qi], "loaded": loadedAt[qi]})
+		evQs = append(evQs, map[string]any{"ms": ms, "mint": q.Mint, "maxt": q.Maxt, "maxres": q.MaxRes, "aggrs": aggrs,
+			"oracle": oracle(q, present), "res": groups[qi], "loaded": loadedAt[qi]})
 	}
-	return vt.Event{"blocks": evBlocks, "qs": evQs, "syncerrs": syncErrs, "stats": map[string]any{"lazy_applied": int(lazyApplied), "expanded_postings_cache_hits": int(epHits), "stores": len(stores)}}
+	return vt.Event{"blocks": evBlocks, "qs": evQs, "syncerrs": syncErrs, "ds": hasDs, "stats": map[string]any{"lazy_applied": int(lazyApplied), "expanded_postings_cache_hits": int(epHits), "stores": len(stores)}}
 }
 
 // c10CallSeries runs Series and normalises the answer (frames in arrival order).
@@ -971,19 +1135,28 @@ func c10CallSeries(ctx context.Context, bs *store.BucketStore, req *storepb.Seri
 		return a
 	}
 	for _, s := range srv.series {
-		f := c10Frame{Ls: map[string]string{}, Chunks: [][3]int64{}}
+		f := c10Frame{Ls: map[string]string{}, Chunks: []c10Chunk{}}
 		for _, l := range s.Labels {
 			f.Ls[string([]byte(l.Name))] = string([]byte(l.Value))
 		}
 		for _, ch := range s.Chunks {
-			h := int64(-1)
-			if ch.Raw != nil {
-				c, err := chunkenc.FromData(chunkenc.EncXOR, ch.Raw.Data)
-				if err == nil {
-					h = c10Hash(c)
+			hx := func(c *storepb.Chunk) int64 {
+				if c == nil {
+					return -1
 				}
+				x, err := chunkenc.FromData(chunkenc.EncXOR, c.Data)
+				if err != nil || c.Type != storepb.Chunk_XOR {
+					return -2
+				}
+				return c10Hash(x)
 			}
-			f.Chunks = append(f.Chunks, [3]int64{ch.MinTime, ch.MaxTime, h})
+			var h []int64
+			if ch.Raw != nil {
+				h = []int64{hx(ch.Raw)}
+			} else {
+				h = []int64{hx(ch.Count), hx(ch.Sum), hx(ch.Min), hx(ch.Max), hx(ch.Counter)}
+			}
+			f.Chunks = append(f.Chunks, c10Chunk{ch.MinTime, ch.MaxTime, h})
 		}
 		a.Frames = append(a.Frames, f)
 	}
